@@ -18,8 +18,8 @@ type AloneHeader struct {
 type AloneResult struct {
 	H        AloneHeader
 	Out      []byte
-	Marker   bool  // an end marker was decoded
-	Consumed int   // input bytes consumed
+	Marker   bool // an end marker was decoded
+	Consumed int  // input bytes consumed
 	NOps     int
 	MaxD     int64
 	Over     int64 // max(dist - min(pos, window)); <= 0 when legal
